@@ -475,6 +475,12 @@ func Main() {
 		return
 	}
 	wd := run.WorkDir()
+	if d := os.Getenv("VERIF_EVIDENCE_DIR"); d != "" {
+		// scratch-repo mode (./check with VERIF_REPO): keep its files apart from
+		// those of a run against /repo that may be going on at the same time
+		wd = filepath.Join(wd, filepath.Base(d))
+		os.MkdirAll(wd, 0o755)
+	}
 	cleanWork(wd)
 	if run.Replay != "" {
 		replay(run, wd)
@@ -483,7 +489,7 @@ func Main() {
 
 	nRounds := run.Pick(36, 600)
 	raceChildren := run.Pick(5, 15)
-	overlapChildren := run.Pick(3, 5)
+	overlapChildren := run.Pick(3, 12)
 	maxDistinct := 16
 	watchdog := time.Duration(run.Pick(20, 120)) * time.Minute
 	stall := time.Duration(run.Pick(2, 6)) * time.Minute
